@@ -26,7 +26,7 @@ CLAIMED = {
  'C08': dict(cat='model_checking', ref='6/C08', text='Birth/finish of tasks with their promise and the dispatch discipline (selection, one per root per cycle, enqueued only after success, message names task+counter) checked by TLC on the model and on recorded executions with the real router and the real sender worker (recording plugin).', tech=TRACEB),
  'C09': dict(cat='model_checking', ref='6/C09', text='Lock exclusivity and lease arithmetic: exhaustive for 2 executions x 2 processes x ttl {0,1,2} x every clock position; real acquire/release/heartbeat/sweep interleavings validated by TLC.', tech=TRACEB),
  'C10': dict(cat='model_checking', ref='6/C10', text='Schedule firing (advance by exactly one occurrence, never early, atomic with the promise, idempotent create) exhaustive in the model; real cron strings, clock jumps, delete/re-create races, faults and crashes validated by TLC.', tech=TRACEB),
- 'C11': dict(cat='model_checking', ref='6/C11', text='Liveness <>[]Converged under weak fairness of the background effects checked by TLC on level A; on the real kernel: after clients stop, configurations drawn down to 1, the bounded number of cycles is run and TLC evaluates Converged on the logged database.', tech=TRACEB),
+ 'C11': dict(cat='model_checking', ref='6/C11', text='Liveness <>[]Converged under weak fairness of the background effects checked by TLC on level A; on the real kernel: after clients stop, configurations drawn down to 1, the bounded number of cycles is run and TLC evaluates Converged on the logged database.  Tick.tla (admission of background coroutines and requests per tick; model-checked) with every tick of every run judged by TickTrace.tla; the production queues by queuex.', tech=TRACEB),
 }
 NOTE = {
  'C01': 'bounded models; promise values from small pools (byte fidelity is C20); SQLite atomic commit, TLC, the projection function are trusted',
